@@ -573,6 +573,23 @@ def positioned_edits(w, r, rng, prog, src, per_kind):
         args = ", ".join(bad if k == j else ('""' if t == "$" else "1") for k, (_, t) in enumerate(p["params"]))
         e, row = ins_after(i, "%s %s" % (p["name"], args))
         edits.append(("byref_type_anywhere", e, ARG_FAMILY, row))
+    # a number where a string is needed: next to a fixed-length string (variable or array element), an ordinary string
+    # variable or a string literal, on either side of + and of the relational operators
+    for i in pick(points, per_kind):
+        ind = SIMPLE_LINE.match(lines[i]).group(1)
+        decl = rng.choice(["DIM ZFS9 AS STRING * 4", "DIM ZFA9(1 TO 2) AS STRING * 3", 'ZSV9$ = "a"'])
+        sv = {"DIM ZFS9": "ZFS9", "DIM ZFA9": "ZFA9(1)", "ZSV9$ =": "ZSV9$"}[decl[:8] if decl.startswith("DIM") else "ZSV9$ ="]
+        if rng.random() < 0.2:
+            sv = '"lit"'
+        num = rng.choice(["1", "ZQ9%", "2.5", "(1 + 1)", "LEN(\"ab\")"])
+        a, b = (sv, num) if rng.random() < 0.6 else (num, sv)
+        op = rng.choice(["+", "+", "=", "<>", "<", ">=", "<=", ">"])
+        stmt = rng.choice(["ZSR9$ = %s %s %s", "PRINT %s %s %s", "IF %s %s %s THEN ZQ9% = 1", "ZQ9% = LEN(%s %s %s)"])
+        if op != "+" and stmt.startswith("ZSR9$"):
+            stmt = "ZQ9% = (%s %s %s)"
+        bad = stmt.replace("%s", "@", 3).replace("@", a, 1).replace("@", op, 1).replace("@", b, 1)
+        e = lines[:i + 1] + [ind + decl, ind + bad] + lines[i + 1:]
+        edits.append(("string_number_mix_anywhere", e, TYPE_FAMILY, i + 3))
     # duplicate definitions: the same declaration twice in one scope
     by_scope = {}
     for i in points:
